@@ -780,8 +780,75 @@ def run_history(ck, kind, dn, n_ops, hid, rng, batched):
                    "final_shadow_rot_err_over_u": d_rot / sS / u})
 
 
+def companion_history(ck, kind, dn, n_ops, hid, rng):
+    """Added by the framework owner: the same history applied to one element alone and to that element as row 0 of a
+    batch of three (rows 1, 2 are bystanders with their own operands).  After every operation row 0 of the batch must
+    equal the lone element (they are re-synchronised after each comparison, so rounding cannot accumulate) and every row
+    must stay a valid element: a result must not depend on what else is in the batch."""
+    dtype = lie.DT[dn]
+    u = lie.u_of(dtype)
+    alg = L.GRP2ALG[kind]
+    reg = f"{kind}/{dn}/batch3"
+    X = lie.random_group(kind, rng, 1, dtype, max_angle=2.0, sigma_max=0.3)
+    X = pp.LieTensor(X.tensor().reshape(-1).clone(), ltype=lie.LT[kind])
+    B = lie.random_group(kind, rng, 3, dtype, max_angle=2.0, sigma_max=0.3)
+    B = pp.LieTensor(B.tensor().clone(), ltype=lie.LT[kind])
+    with torch.no_grad():
+        B.tensor()[0] = X.tensor()
+    for i in range(n_ops):
+        op = int(rng.integers(0, 6))
+        Y3 = lie.random_group(kind, rng, 3, dtype, max_angle=1.5, sigma_max=0.05, t_scale=0.3)
+        a3 = lie.lt(alg, rng.standard_normal((3, L.ALG[alg])) * 10.0 ** rng.uniform(-6, -0.5), dtype)
+        if HAS_S[kind]:
+            # keep the scale mean-reverting
+            sg = a3.tensor()[:, -1].abs() * (-torch.sign(torch.log(B.tensor()[:, -1])))
+            a3 = lie.lt(alg, torch.cat([a3.tensor()[:, :-1], sg[:, None]], -1), dtype)
+        Y1 = pp.LieTensor(Y3.tensor()[0].clone(), ltype=lie.LT[kind])
+        a1 = pp.LieTensor(a3.tensor()[0].clone(), ltype=lie.LT[alg])
+        entry = f"{kind}.history[{OPS[min(op, len(OPS) - 1)]}]/batch"
+        def both(f):
+            return f(X, Y1, a1), f(B, Y3, a3)
+        try:
+            if op == 0:
+                Xn, Bn = both(lambda Z, Y, a: Z @ Y)
+            elif op == 1:
+                Xn, Bn = both(lambda Z, Y, a: Y @ Z)
+            elif op == 2:
+                Xn, Bn = both(lambda Z, Y, a: Z.Inv())
+            elif op == 3:
+                Xn, Bn = both(lambda Z, Y, a: Z.add_(a))
+            elif op == 4:
+                Xn, Bn = both(lambda Z, Y, a: Z.Retr(a))
+            else:
+                Xn, Bn = both(lambda Z, Y, a: Z + a)
+        except Exception as e:  # noqa
+            ck.violation("history_batch", reg, entry, "raised:" + type(e).__name__, {"history": hid, "n": i, "error": repr(e)[:300]})
+            return
+        X, B = Xn, Bn
+        xb, x1 = B.tensor().detach().double().numpy(), X.tensor().detach().double().numpy()
+        ck.count("history_batch", reg, key=(hid, i), nontrivial=True)
+        _, q, sc = L.split_grp(kind, xb)
+        dq = np.abs(np.asarray(L.quat_norm(q), dtype=np.float64) - 1.0)
+        okv = ck.ratio("history_batch", reg, float(dq.max()), 4.0 * (i + 2) * u, entry, "quaternion_norm_drift_beyond_4un",
+                       lambda: {"history": hid, "n": i + 1, "rows": xb.tolist(), "kind": kind, "dtype": dn})
+        okv = okv and ck.check(bool(np.isfinite(xb).all() and (np.asarray(sc, dtype=np.float64) > 0).all()), "history_batch", reg, entry,
+                               "nonfinite_or_scale_not_positive", lambda: {"history": hid, "n": i + 1, "rows": xb.tolist()})
+        sc0 = 1.0 + float(np.abs(x1).max())
+        oke = ck.ratio("history_batch", reg, float(np.abs(xb[0] - x1).max()), 16 * u * sc0, entry, "row_of_batch_differs_from_the_same_element_alone",
+                       lambda: {"history": hid, "n": i + 1, "alone": x1.tolist(), "row0_of_batch": xb[0].tolist(), "kind": kind, "dtype": dn})
+        if not (okv and oke):
+            return
+        with torch.no_grad():        # re-synchronise row 0 (bitwise) so that rounding differences cannot accumulate
+            B.tensor()[0] = X.tensor()
+    ck.mark(f"history-batch/{kind}/{dn}", n_ops)
+
+
 def histories(ck):
     thorough = ck.tier == "thorough"
+    for j, (k_, dn_) in enumerate([(k, dn) for dn in ("f64", "f32") for k in lie.GRPS]):
+        if ck.mine(j):
+            companion_history(ck, k_, dn_, 4000 if thorough else 700, ("batch", j), np.random.default_rng(ck.subseed(f"cb{j}")))
+        ck.require(f"history-batch/{k_}/{dn_}")
     combos = [(k, dn) for dn in ("f64", "f32") for k in lie.GRPS]
     plan = []
     per = 8 if thorough else 2
@@ -815,6 +882,10 @@ def histories(ck):
 def run(ck):
     static_part(ck, ck.rng("static"))
     histories(ck)
+    if ck.shard == 0:
+        # call-history independence of every operation (shared monitor, added by the framework owner)
+        from .. import history
+        history.run(ck, "C03", reps=4 if ck.tier == "thorough" else 2)
     for m, n in (("mul_hom", 2000), ("assoc", 2000), ("inverse", 1000), ("matrix", 1000), ("accessors", 1000),
                  ("act3", 2000), ("act4", 2000), ("act_compose", 2000), ("matrix_hom", 1000), ("identity", 50),
                  ("history_valid", 30000), ("history_shadow", 30000)):
